@@ -144,14 +144,32 @@ func runC18(c *Ctx) {
 				problems = append(problems, fmt.Sprintf("output bit %d depends on %v, want %v", k, keysInt(got), keysInt(want)))
 			}
 		}
-		// every index: range loop over len(r) with the store in its body, no other exit
+		// every index: one loop over the whole row from index 0 (range or index form), the store addressing the
+		// loop's own index, no other exit, and no second way of writing the row (a word-wise fast path with
+		// its own bounds is outside what this rule can vouch for)
 		whole := false
-		for _, b := range fn.Blocks {
-			if iff := lastIf(b); iff != nil && condPolarity(tb.T(iff.Cond), "lt(_,call[len](p[0]))", nil) != 0 {
-				if again, _ := reach(after(st), isInstr(st), nil, nil); again != nil {
+		for _, lp := range rangeLoopsOf(fn) {
+			if tb.T(lp.Slice).String() == "p[0]" && lp.Whole() && lp.Blocks()[st.Block()] {
+				if ia, ok := st.Addr.(*ssa.IndexAddr); ok && tb.T(ia.Index).String() == tb.T(lp.Index).String() {
 					whole = true
 				}
 			}
+		}
+		nWrites := 0
+		eachInstr(fn, func(in ssa.Instruction) {
+			switch x := in.(type) {
+			case *ssa.Store:
+				if _, isAlloc := x.Addr.(*ssa.Alloc); !isAlloc {
+					nWrites++
+				}
+			case *ssa.Call:
+				if b, ok := x.Call.Value.(*ssa.Builtin); ok && b.Name() == "copy" {
+					nWrites++
+				}
+			}
+		})
+		if nWrites != 1 {
+			whole = false
 		}
 		if len(problems) > 0 {
 			L.Fail("R-C18-HALVE", "cmRow.reset", "halving "+tb.T(st.Val).String()+" does not keep the two counters of a byte independent: "+strings.Join(problems, "; "), st.Pos())
@@ -484,6 +502,8 @@ func runC18(c *Ctx) {
 		}
 	})
 	bloomClearRule(c, "R-C18-TINYLFU")
+	// the doorkeeper remembers a first access only if Add and Has derive the same bit positions (shared with C19)
+	importRules(c, runC19, map[string]string{"R-C19-ADDHAS": "R-C18-TINYLFU"})
 	// the estimate the property speaks of is tinyLFU.Estimate: sketch estimate plus the doorkeeper's first-access mark
 	importRules(c, runC09, map[string]string{"R-C09-ESTIMATE": "R-C18-TINYLFU"})
 	c.Group("R-C18-TINYLFU", "newTinyLFU", func() {
